@@ -27,7 +27,7 @@ NonFinite  == {"NAN", "PINF", "NINF"}
 FloatToks  == FloatFinite \cup NonFinite
 StrNumInt  == {"sS", "sONE", "sZERO", "sMAX", "sMIN"}             \* text of an integer within 32 bits
 StrNumOther == {"sOVER", "sFRAC"}                                \* text of another number
-StrPlain   == {"sEMPTY", "sBLANK", "sTXT", "sUNI", "sTRUE", "sFALSE"}
+StrPlain   == {"sEMPTY", "sBLANK", "sTXT", "sUNI", "sTRUE", "sFALSE", "sNONFIN"}  \* sNONFIN: "nan", "inf", "1e999" - text float() would read as non-finite
 StrToks    == StrNumInt \cup StrNumOther \cup StrPlain
 Others     == {"LIST", "DICT", "BYTES", "TUPLE", "SET", "OBJ", "EXC"}
 Tokens     == BoolToks \cup IntToks \cup FloatToks \cup StrToks \cup Others
